@@ -90,6 +90,9 @@ thread_local! {
     /// one with the longest operation list (a high-water mark a library might keep is set by these)
     static LANDMARKS: std::cell::RefCell<[Option<Case>; 3]> = const { std::cell::RefCell::new([None, None, None]) };
 }
+thread_local! {
+    static HIST_DEP: std::cell::RefCell<std::collections::HashSet<String>> = std::cell::RefCell::new(std::collections::HashSet::new());
+}
 fn note_landmarks(case: &Case) {
     LANDMARKS.with(|l| {
         let mut l = l.borrow_mut();
@@ -132,6 +135,25 @@ fn on_fresh_thread(judge: Judge, chain: Vec<Case>, case: Case) -> Acc {
 pub fn judge_guarded(judge: Judge, case: &Case, acc: &mut Acc) {
     let mut local = Acc::default();
     judge_plain(judge, case, &mut local);
+    // signatures this thread already found to depend on earlier calls go straight to that verdict
+    let known: Vec<String> = HIST_DEP.with(|h| local.violations.keys().filter(|k| h.borrow().contains(*k)).cloned().collect());
+    for k in known {
+        if let Some((v, n)) = local.violations.remove(&k) {
+            let sig = format!("{}/result-depends-on-earlier-calls", v.property);
+            if let Some(e) = acc.violations.get_mut(&sig) {
+                e.1 += n;
+            } else {
+                local.violations.insert(k, (v, n)); // first time in this accumulator: verify below
+            }
+        }
+    }
+    // a later occurrence of a signature never replaces the verified artefact of the first one
+    for (k, (v, _)) in local.violations.iter_mut() {
+        if let Some((first, _)) = acc.violations.get(k) {
+            v.replay = first.replay.clone();
+            v.what = first.what.clone();
+        }
+    }
     let fresh: Vec<String> = local.violations.keys().filter(|k| !acc.violations.contains_key(*k)).cloned().collect();
     if !fresh.is_empty() {
         let alone = on_fresh_thread(judge, vec![], case.clone());
@@ -162,6 +184,9 @@ pub fn judge_guarded(judge: Judge, case: &Case, acc: &mut Acc) {
             // itself is the violation (its result depended on some earlier call of this thread).  The
             // artefact records the case and says that it does not fail alone.
             for k in left {
+                HIST_DEP.with(|h| {
+                    h.borrow_mut().insert(k.clone());
+                });
                 if let Some((mut v, n)) = local.violations.remove(&k) {
                     let prop = v.property.clone();
                     v.signature = format!("{prop}/result-depends-on-earlier-calls");
